@@ -268,24 +268,24 @@ Qed.
 Definition member_ok (k : string) (x : json) : Prop :=
   match x with JSecret _ => key_eq k tls_key_json = true | _ => keyed_ok x end.
 
-Lemma taint_json_secret t s : taint_json T t (JSecret s) = JSecret s.
+Lemma taint_json_ty_secret t s : taint_json_ty T t (JSecret s) = JSecret s.
 Proof. cbn. destruct (strip_ptr t); reflexivity. Qed.
 
-Lemma taint_json_secret_inv t x s : taint_json T t x = JSecret s -> x = JSecret s.
+Lemma taint_json_ty_secret_inv t x s : taint_json_ty T t x = JSecret s -> x = JSecret s.
 Proof.
   destruct x; cbn; destruct (strip_ptr t); try (intros H; exact H); try discriminate.
   destruct (find_struct T n); discriminate.
 Qed.
 
-Lemma member_ok_taint k x t : (keyed_ok x -> keyed_ok (taint_json T t x)) -> member_ok k x -> member_ok k (taint_json T t x).
+Lemma member_ok_taint_ty k x t : (keyed_ok x -> keyed_ok (taint_json_ty T t x)) -> member_ok k x -> member_ok k (taint_json_ty T t x).
 Proof.
   intros Hk Hm.
   assert (Hx : (exists s, x = JSecret s) \/ keyed_ok x).
   { destruct x; try (right; exact Hm). left; eexists; reflexivity. }
-  destruct Hx as [[s ->]|Hx]; [rewrite taint_json_secret; exact Hm|].
+  destruct Hx as [[s ->]|Hx]; [rewrite taint_json_ty_secret; exact Hm|].
   specialize (Hk Hx).
-  destruct (taint_json T t x) eqn:E; try exact Hk.
-  apply taint_json_secret_inv in E. subst. exact Hm.
+  destruct (taint_json_ty T t x) eqn:E; try exact Hk.
+  apply taint_json_ty_secret_inv in E. subst. exact Hm.
 Qed.
 
 Lemma keyed_obj_cons k x kvs : keyed_ok (JObj ((k, x) :: kvs)) <-> member_ok k x /\ keyed_ok (JObj kvs).
@@ -309,15 +309,15 @@ Proof.
     + intros H. inversion H; subst. split; assumption.
 Qed.
 
-Lemma taint_json_keyed : forall j t, keyed_ok j -> keyed_ok (taint_json T t j).
+Lemma taint_json_ty_keyed : forall j t, keyed_ok j -> keyed_ok (taint_json_ty T t j).
 Proof.
   induction j as [j Hl|l IH|kvs IH] using json_ind'; intros t H.
   - destruct j; try contradiction; cbn; destruct (strip_ptr t); exact H.
-  - cbn [taint_json]. destruct (strip_ptr t); try exact H.
+  - cbn [taint_json_ty]. destruct (strip_ptr t); try exact H.
     apply keyed_arr_iff in H. apply keyed_arr_iff.
     induction IH as [|x l Hx Hl IH']; [constructor|].
     inversion H; subst. constructor; [apply Hx; assumption|apply IH'; assumption].
-  - cbn [taint_json]. destruct (strip_ptr t) as [| | | |n|?|?|t'| | |?]; try exact H.
+  - cbn [taint_json_ty]. destruct (strip_ptr t) as [| | | |n|?|?|t'| | |?]; try exact H.
     + destruct (find_struct T n) as [sd|] eqn:Es; [|exact H].
       apply keyed_obj_iff in H. apply keyed_obj_iff.
       induction IH as [|[k x] kvs Hx Hl IH']; [constructor|].
@@ -328,11 +328,47 @@ Proof.
       destruct (is_tls_key n fd) eqn:Ek.
       * pose proof (tls_key_json_name n sd fd Es Hin Ek) as Hj.
         destruct x; try assumption. cbn. eapply key_eq_trans; eauto.
-      * apply member_ok_taint; [apply Hx|assumption].
+      * apply member_ok_taint_ty; [apply Hx|assumption].
     + apply keyed_obj_iff in H. apply keyed_obj_iff.
       induction IH as [|[k x] kvs Hx Hl IH']; [constructor|].
       inversion H; subst. constructor; [|apply IH'; assumption].
-      cbn [fst snd] in *. apply member_ok_taint; [apply Hx|assumption].
+      cbn [fst snd] in *. apply member_ok_taint_ty; [apply Hx|assumption].
+Qed.
+
+Lemma taint_keys_secret_inv x s : taint_keys x = JSecret s -> x = JSecret s.
+Proof. destruct x; cbn; try (intros H; exact H); discriminate. Qed.
+
+Lemma member_ok_taint_keys k x : (keyed_ok x -> keyed_ok (taint_keys x)) -> member_ok k x ->
+  member_ok k (if key_eq k tls_key_json then match x with JStr s => JSecret s | _ => taint_keys x end else taint_keys x).
+Proof.
+  intros Hk Hm.
+  assert (Hx : (exists s, x = JSecret s) \/ keyed_ok x).
+  { destruct x; try (right; exact Hm). left; eexists; reflexivity. }
+  destruct Hx as [[s ->]|Hx].
+  - cbn [taint_keys]. destruct (key_eq k tls_key_json) eqn:Ek; exact Hm.
+  - specialize (Hk Hx).
+    assert (Hplain : member_ok k (taint_keys x)).
+    { destruct (taint_keys x) eqn:E; try exact Hk. apply taint_keys_secret_inv in E. subst. exact Hm. }
+    destruct (key_eq k tls_key_json) eqn:Ek; [|exact Hplain].
+    destruct x; try exact Hplain. cbn. exact Ek.
+Qed.
+
+Lemma taint_keys_keyed : forall j, keyed_ok j -> keyed_ok (taint_keys j).
+Proof.
+  induction j as [j Hl|l IH|kvs IH] using json_ind'; intros H.
+  - destruct j; try contradiction; exact H.
+  - cbn [taint_keys]. apply keyed_arr_iff in H. apply keyed_arr_iff.
+    induction IH as [|x l Hx Hl IH']; [constructor|].
+    inversion H; subst. constructor; [apply Hx; assumption|apply IH'; assumption].
+  - cbn [taint_keys]. apply keyed_obj_iff in H. apply keyed_obj_iff.
+    induction IH as [|[k x] kvs Hx Hl IH']; [constructor|].
+    inversion H; subst. constructor; [|apply IH'; assumption].
+    cbn [fst snd] in *. apply member_ok_taint_keys; assumption.
+Qed.
+
+Lemma taint_json_keyed : forall j t, keyed_ok j -> keyed_ok (taint_json T t j).
+Proof.
+  intros j t H. unfold taint_json. destruct (is_keys_ty t); [apply taint_keys_keyed|apply taint_json_ty_keyed]; exact H.
 Qed.
 
 Lemma fold_taint_json_keyed interps : forall j, keyed_ok j -> keyed_ok (fold_left (fun j t' => taint_json T t' j) interps j).
@@ -489,15 +525,8 @@ Proof.
   - specialize (IH n1). rewrite E2 in IH. apply IH. intros kv nx Hin. apply Hf. right; assumption.
 Qed.
 
-Lemma ext_interps_nil e : ext_has_tls = false -> ext_interps e = [].
-Proof. unfold ext_has_tls, ext_interps. destruct cfg_ext_tls; [reflexivity|discriminate]. Qed.
-
-Lemma raw_interps_nil n sd vs : (String.eqb n ext_struct && ext_has_tls)%bool = false -> raw_interps n sd vs = [].
-Proof.
-  unfold raw_interps. intros H. destruct (String.eqb n ext_struct); [|reflexivity].
-  cbn in H. destruct (field_index (s_fields sd) "Type" 0) as [[i fd]|]; [|reflexivity].
-  destruct (nth_error vs i) as [[]|]; try reflexivity. apply ext_interps_nil. exact H.
-Qed.
+Lemma raw_interps_nil n sd vs : (String.eqb n ext_struct) = false -> raw_interps n sd vs = [].
+Proof. unfold raw_interps. intros H. rewrite H. reflexivity. Qed.
 
 Lemma tls_not_ext : String.eqb tls_struct ext_struct = false.
 Proof. reflexivity. Qed.
@@ -586,10 +615,10 @@ Qed.
 (* a field of any other struct *)
 Lemma field_ok_other f n interps pruned path p cur nx fd x :
   IHty x -> plain x -> String.eqb n tls_struct = false -> p <> RBlankKey ->
-  ((String.eqb n ext_struct && ext_has_tls)%bool = false -> interps = []) ->
+  ((String.eqb n ext_struct) = false -> interps = []) ->
   (path_mem (path ++ [f_go fd]) pruned
    || match f_ty fd with
-      | TRaw => if (String.eqb n ext_struct && ext_has_tls)%bool then prog_eq_json (sub_prog p (f_go fd)) else true
+      | TRaw => if (String.eqb n ext_struct) then prog_eq_json (sub_prog p (f_go fd)) else true
       | _ => covers T f pruned (path ++ [f_go fd]) (f_ty fd) (sub_prog p (f_go fd))
       end)%bool = true ->
   oks (vsecrets (rval (fredact p cur fd (ftaint n interps fd (fprune pruned path fd x)) nx))).
@@ -609,7 +638,7 @@ Proof.
   unfold fprune in *. destruct (path_mem (path ++ [f_go fd]) pruned) eqn:Epm.
   - apply oks_eq_nil. apply redact_nil_plain.
   - apply raw_field_ok; [exact Hy|].
-    cbn [orb] in Hc. destruct (String.eqb n ext_struct && ext_has_tls)%bool eqn:Ee; [|left; apply Hint; reflexivity].
+    cbn [orb] in Hc. destruct (String.eqb n ext_struct) eqn:Ee; [|left; apply Hint; reflexivity].
     right. destruct (sub_prog p (f_go fd)); try discriminate. reflexivity.
 Qed.
 
@@ -912,3 +941,70 @@ Proof.
   split; [vm_compute; reflexivity|].
   vm_compute. discriminate.
 Qed.
+
+(* ================================================================================================ *)
+(* 6. the JSON-level redactor on its own (redactRawJSON / redactJSONValue of redact.go)              *)
+(* ================================================================================================ *)
+Lemma blank_not_string x : match x with JStr _ | JSecret _ => False | _ => True end ->
+  match blank_json_keys x with JStr _ | JSecret _ => False | _ => True end.
+Proof. destruct x; cbn; auto. Qed.
+
+(* for EVERY JSON value: after the redaction every string under a "private_key" member is empty or the placeholder *)
+Theorem blank_key_strings : forall j, oks (key_strings (blank_json_keys j)).
+Proof.
+  induction j as [j Hl|l IH|kvs IH] using json_ind'.
+  - destruct j; try contradiction; apply oks_nil.
+  - cbn. induction IH as [|x l Hx Hl IH']; [apply oks_nil|]. cbn. apply oks_app. split; assumption.
+  - cbn. induction IH as [|[k x] kvs Hx Hl IH']; [apply oks_nil|]. cbn in Hx. cbn.
+    apply oks_app. split; [|apply oks_app; split; [|exact IH']].
+    + destruct (key_eq k tls_key_json) eqn:Ek; [|apply oks_nil].
+      destruct x; cbn; try apply oks_nil.
+      * destruct (String.eqb s "") eqn:Es; cbn.
+        -- apply String.eqb_eq in Es. subst. constructor; [left; reflexivity|constructor].
+        -- constructor; [apply ok_placeholder|constructor].
+      * destruct (String.eqb s "") eqn:Es; cbn.
+        -- apply String.eqb_eq in Es. subst. constructor; [left; reflexivity|constructor].
+        -- constructor; [apply ok_placeholder|constructor].
+    + destruct (key_eq k tls_key_json); [|exact Hx].
+      destruct x; try exact Hx; (destruct (String.eqb s ""); apply oks_nil).
+Qed.
+
+Lemma same_but_keys_refl : forall j, same_but_keys j j.
+Proof.
+  induction j as [j Hl|l IH|kvs IH] using json_ind'.
+  - destruct j; try contradiction; reflexivity.
+  - cbn. induction IH as [|x l Hx Hl IH']; [exact I|]. split; assumption.
+  - cbn. induction IH as [|[k x] kvs Hx Hl IH']; [exact I|]. cbn in Hx.
+    split; [reflexivity|]. split; [|exact IH'].
+    destruct (key_eq k tls_key_json); [|exact Hx]. destruct x; try exact Hx; exact I.
+Qed.
+
+(* ... and nothing else is changed: same shape, same members in the same order, same leaves *)
+Theorem blank_same_but_keys : forall j, same_but_keys j (blank_json_keys j).
+Proof.
+  induction j as [j Hl|l IH|kvs IH] using json_ind'.
+  - destruct j; try contradiction; reflexivity.
+  - cbn. induction IH as [|x l Hx Hl IH']; [exact I|]. split; assumption.
+  - cbn. induction IH as [|[k x] kvs Hx Hl IH']; [exact I|]. cbn in Hx.
+    split; [reflexivity|]. split; [|exact IH'].
+    destruct (key_eq k tls_key_json); [|exact Hx].
+    destruct x; try exact Hx; (destruct (String.eqb s ""); exact I).
+Qed.
+
+(* a document without such members is returned as it is *)
+Lemma blank_no_keys_id : forall j, key_strings j = [] -> blank_json_keys j = j.
+Proof.
+  induction j as [j Hl|l IH|kvs IH] using json_ind'; intros H.
+  - destruct j; try contradiction; reflexivity.
+  - cbn in *. f_equal. induction IH as [|x l Hx Hl IH']; [reflexivity|].
+    cbn in H. apply app_eq_nil in H. destruct H as [H1 H2]. f_equal; [apply Hx; exact H1|apply IH'; exact H2].
+  - cbn in *. f_equal. induction IH as [|[k x] kvs Hx Hl IH']; [reflexivity|]. cbn in Hx.
+    cbn in H. apply app_eq_nil in H. destruct H as [H0 H]. apply app_eq_nil in H. destruct H as [H1 H2].
+    f_equal; [|apply IH'; exact H2]. f_equal.
+    destruct (key_eq k tls_key_json); [|apply Hx; exact H1].
+    destruct x; try (apply Hx; exact H1); discriminate.
+Qed.
+
+(* marked or not, nothing marked survives (the form used by c20_no_leak) *)
+Theorem blank_taint_keys_ok : forall j, jsecrets j = [] -> oks (jsecrets (blank_json_keys (taint_keys j))).
+Proof. intros j H. apply blank_keyed_ok. apply taint_keys_keyed. apply jplain_keyed. exact H. Qed.
